@@ -411,9 +411,22 @@ func RunUnkAccessors(c *core.Ctx) {
 					}
 				}
 			}
+			recvName := gu.Recv.List[0].Names[0].Name
+			retUnknown := func(st ast.Stmt) bool {
+				if rs, ok := st.(*ast.ReturnStmt); ok && len(rs.Results) == 1 {
+					if sel, ok := ast.Unparen(rs.Results[0]).(*ast.SelectorExpr); ok && sel.Sel.Name == "unknownFields" && types.ExprString(sel.X) == recvName {
+						return true
+					}
+				}
+				return false
+			}
 			if len(gl) == 1 {
-				if rs, ok := gl[0].(*ast.ReturnStmt); ok && len(rs.Results) == 1 {
-					if sel, ok := ast.Unparen(rs.Results[0]).(*ast.SelectorExpr); ok && sel.Sel.Name == "unknownFields" {
+				okG = retUnknown(gl[0])
+			}
+			// positive branch first: if x != nil { return x.unknownFields }; return nil
+			if len(gl) == 2 && !okG {
+				if is, ok := gl[0].(*ast.IfStmt); ok && is.Init == nil && is.Else == nil && len(is.Body.List) == 1 && types.ExprString(is.Cond) == recvName+" != nil" && retUnknown(is.Body.List[0]) {
+					if rs, ok := gl[1].(*ast.ReturnStmt); ok && len(rs.Results) == 1 && types.ExprString(rs.Results[0]) == "nil" {
 						okG = true
 					}
 				}
